@@ -11,29 +11,39 @@ namespace Btcdeb.Proofs.C12
 open Btcdeb Btcdeb.Model
 
 /-- the redeem script the listing announces for a P2SH scriptPubKey is the one the hand-over will load:
-    when the scriptPubKey is about to be entered, the item on top of the stack is `r` -/
+    when the scriptPubKey is about to be entered after a push-only scriptSig (any other scriptSig makes
+    the P2SH hand-over fail, BIP16), the item on top of the stack is `r` -/
 def PredOk (r : Bytes) (e : IEnv) : Prop :=
   e.tce = none → e.pc = [] → e.isP2sh = false → e.successor ≠ [] → p2shPattern e.see.flags e.successor = true →
-    e.see.stack.getLast?.getD [] = r
+    isPushOnly e.see.script = true → e.see.stack.getLast?.getD [] = r
+
+/-- the hand-over to the redeem script cannot succeed any more: the scriptSig was not push-only -/
+def doomed (e : IEnv) : Bool := e.isP2sh && e.sigscriptExecuted && !e.sigscriptPushonly
+
+/-- what follows the current script in the listing: the plan of the rest (`Spec.tailFuture`), except that
+    in a session whose P2SH hand-over is bound to fail the section announced for the redeem script stays
+    listed (it is never entered) -/
+def tailOf (r : Bytes) (e : IEnv) : List Spec.PlanLine :=
+  if doomed e then Spec.handOverP2sh :: Spec.planOf r else Spec.tailFuture r e
 
 /-- structural invariant: the listing is what has been executed followed by the plan of the rest -/
 def Inv (r : Bytes) (L : List Spec.PlanLine) (e : IEnv) : Prop :=
   ∃ (pre : List Spec.PlanLine) (k : Nat),
-    L = pre ++ Spec.sessionPlan r e ∧
+    L = pre ++ (Spec.commitFuture e.tce ++ Spec.planOf e.see.script ++ tailOf r e) ∧
     e.currOpSeq = ((pre.length + k : Nat) : Int) ∧
     advanceOps k e.see.script = some e.pc ∧
     (e.tce.isSome = true → k = 0) ∧
     (e.done = true → e.tce = none ∧ e.pc = [] ∧ e.isP2sh = false ∧ e.successor = [])
 
-theorem commitmentPlan_lt (c : Bytes) (m i : Nat) (h : i < m) :
-    Spec.commitmentPlan c m i = Spec.merkleStep c i :: Spec.commitmentPlan c m (i + 1) := by
+theorem commitmentPlan_lt (c p : Bytes) (m i : Nat) (h : i < m) :
+    Spec.commitmentPlan c p m i = Spec.merkleStep c i :: Spec.commitmentPlan c p m (i + 1) := by
   unfold Spec.commitmentPlan
   have : m - i = (m - (i + 1)) + 1 := by omega
   rw [this, List.range'_succ]
   simp
 
-theorem commitmentPlan_ge (c : Bytes) (m i : Nat) (h : ¬ i < m) :
-    Spec.commitmentPlan c m i = [Spec.tweakCheck] := by
+theorem commitmentPlan_ge (c p : Bytes) (m i : Nat) (h : ¬ i < m) :
+    Spec.commitmentPlan c p m i = [Spec.tweakCheck p] := by
   unfold Spec.commitmentPlan
   have : m - i = 0 := by omega
   rw [this]; simp
@@ -43,10 +53,11 @@ theorem planOf_length_of_end {k : Nat} {s : Bytes} (h : advanceOps k s = some []
   rw [planOf_eq, h1, decodeFrom_none (by rfl)]
   simpa using h2
 
-/-- the plan of a session depends on the fields of `view` only -/
-theorem sessionPlan_eq (r : Bytes) (e : IEnv) :
-    Spec.sessionPlan r e = Spec.commitFuture e.tce ++ Spec.planOf e.see.script ++
-      ((if e.isP2sh then Spec.handOverP2sh :: Spec.planOf (e.p2shStack.getLast?.getD []) else []) ++
+/-- the tail depends on the fields of `view` only -/
+theorem tailOf_eq (r : Bytes) (e : IEnv) :
+    tailOf r e =
+      if (e.isP2sh && e.sigscriptExecuted && !e.sigscriptPushonly) = true then Spec.handOverP2sh :: Spec.planOf r
+      else ((if e.isP2sh then Spec.handOverP2sh :: Spec.planOf (e.p2shStack.getLast?.getD []) else []) ++
        (if e.successor.isEmpty then []
         else Spec.handOverSpk :: Spec.planOf e.successor ++
           (if p2shPattern e.see.flags e.successor then Spec.handOverP2sh :: Spec.planOf r else []))) := rfl
@@ -55,75 +66,80 @@ theorem inv_step (cx : Ctx) (tc : TapCtx) (r : Bytes) (L : List Spec.PlanLine) (
     (hinv : Inv r L ep) (hnd : ep.done = false) (hpred : PredOk r ep) (hs : stepSession cx tc ep = .ok e) :
     Inv r L e := by
   obtain ⟨pre, k, hL, hseq, hadv, htk, hdone⟩ := hinv
-  rw [sessionPlan_eq] at hL
+  rw [tailOf_eq] at hL
   unfold Inv
-  simp only [sessionPlan_eq]
+  simp only [tailOf_eq]
   cases stepSession_cases cx tc ep e hs with
-  | merkle t t' htce hlt hc hm hi hv =>
+  | merkle t t' htce hlt hc hp hm hi hv =>
     simp only [view, Prod.mk.injEq] at hv
-    obtain ⟨hscr, hfl, hpc, htce', hisp, hps, hsu, hdn, hsq, _, _⟩ := hv
+    obtain ⟨hscr, hfl, hpc, htce', hisp, hps, hsu, hdn, hsq, _, _, hsx, hsp⟩ := hv
     have hk0 : k = 0 := htk (by simp [htce])
     subst hk0
     refine ⟨pre ++ [Spec.merkleStep t.control t.i], 0, ?_, ?_, ?_, fun _ => rfl, ?_⟩
-    · rw [hL, hscr, hfl, htce', hisp, hps, hsu, htce]
-      simp only [Spec.commitFuture, hc, hm, hi]
-      rw [commitmentPlan_lt _ _ _ hlt]; simp
+    · rw [hL, hscr, hfl, htce', hisp, hps, hsu, hsx, hsp, htce]
+      simp only [Spec.commitFuture, hc, hp, hm, hi]
+      rw [commitmentPlan_lt _ _ _ _ hlt]; simp
     · rw [hsq, hseq]; simp
     · rw [hscr, hpc]; exact hadv
     · rw [hdn, hnd]; intro h; cases h
   | tweak t htce hlt hv =>
     simp only [view, Prod.mk.injEq] at hv
-    obtain ⟨hscr, hfl, hpc, htce', hisp, hps, hsu, hdn, hsq, _, _⟩ := hv
+    obtain ⟨hscr, hfl, hpc, htce', hisp, hps, hsu, hdn, hsq, _, _, hsx, hsp⟩ := hv
     have hk0 : k = 0 := htk (by simp [htce])
     subst hk0
-    refine ⟨pre ++ [Spec.tweakCheck], 0, ?_, ?_, ?_, fun _ => rfl, ?_⟩
-    · rw [hL, hscr, hfl, htce', hisp, hps, hsu, htce]
+    refine ⟨pre ++ [Spec.tweakCheck t.p], 0, ?_, ?_, ?_, fun _ => rfl, ?_⟩
+    · rw [hL, hscr, hfl, htce', hisp, hps, hsu, hsx, hsp, htce]
       simp only [Spec.commitFuture]
-      rw [commitmentPlan_ge _ _ _ hlt]; simp
+      rw [commitmentPlan_ge _ _ _ _ hlt]; simp
     · rw [hsq, hseq]; simp
     · rw [hscr, hpc]; exact hadv
     · rw [hdn, hnd]; intro h; cases h
   | op g see' htce hne hg hst hv =>
     simp only [view, Prod.mk.injEq] at hv
-    obtain ⟨hscr, hfl, hpc, htce', hisp, hps, hsu, hdn, hsq, _, _⟩ := hv
+    obtain ⟨hscr, hfl, hpc, htce', hisp, hps, hsu, hdn, hsq, _, _, hsx, hsp⟩ := hv
     refine ⟨pre, k + 1, ?_, ?_, ?_, ?_, ?_⟩
-    · rw [hL, hscr, hfl, htce', hisp, hps, hsu, htce]
+    · rw [hL, hscr, hfl, htce', hisp, hps, hsu, hsx, hsp, htce]
     · rw [hsq, hseq]; simp; omega
     · rw [hscr, hpc]; exact advanceOps_succ hadv hg
     · rw [htce']; intro h; simp at h
     · rw [hdn, hnd]; intro h; cases h
-  | p2sh redeem htce hpc0 hp2 hr hv =>
+  | p2sh redeem htce hpc0 hp2 hr hpo hv =>
     simp only [view, Prod.mk.injEq] at hv
-    obtain ⟨hscr, hfl, hpc, htce', hisp, hps, hsu, hdn, hsq, _, _⟩ := hv
+    obtain ⟨hscr, hfl, hpc, htce', hisp, hps, hsu, hdn, hsq, _, _, hsx, hsp⟩ := hv
     have hlen : (Spec.planOf ep.see.script).length = k := planOf_length_of_end (by rw [← hpc0]; exact hadv)
+    have hnd' : (ep.isP2sh && ep.sigscriptExecuted && !ep.sigscriptPushonly) = false := by
+      rw [hp2, Bool.true_and]; exact hpo
+    simp only [hnd', Bool.false_eq_true, if_false] at hL
     refine ⟨pre ++ Spec.planOf ep.see.script ++ [Spec.handOverP2sh], 0, ?_, ?_, ?_, fun _ => rfl, ?_⟩
-    · rw [hL, hscr, hfl, htce', hisp, hps, hsu, htce]
+    · rw [hL, hscr, hfl, htce', hisp, hps, hsu, hsx, hsp, htce]
       simp [Spec.commitFuture, hp2, hr]
     · rw [hsq, hseq]; simp [hlen]; omega
     · rw [hscr, hpc]; rfl
     · rw [hdn, hnd]; intro h; cases h
   | succ htce hpc0 hp2 hne hv =>
     simp only [view, Prod.mk.injEq] at hv
-    obtain ⟨hscr, hfl, hpc, htce', hisp, hps, hsu, hdn, hsq, _, _⟩ := hv
+    obtain ⟨hscr, hfl, hpc, htce', hisp, hps, hsu, hdn, hsq, _, _, hsx, hsp⟩ := hv
     have hlen : (Spec.planOf ep.see.script).length = k := planOf_length_of_end (by rw [← hpc0]; exact hadv)
     have hsue : ep.successor.isEmpty = false := by
       cases h : ep.successor with | nil => exact absurd h hne | cons a b => rfl
     refine ⟨pre ++ Spec.planOf ep.see.script ++ [Spec.handOverSpk], 0, ?_, ?_, ?_, fun _ => rfl, ?_⟩
-    · rw [hL, hscr, hfl, htce', hisp, hps, hsu, htce]
+    · rw [hL, hscr, hfl, htce', hisp, hps, hsu, hsx, hsp, htce]
       simp only [Spec.commitFuture, hp2, hsue, List.nil_append, Bool.false_eq_true, if_false, List.isEmpty_nil, if_true,
-        List.append_nil]
+        List.append_nil, Bool.false_and, Bool.true_and, Bool.and_true]
       by_cases hpat : p2shPattern ep.see.flags ep.successor = true
-      · have := hpred htce hpc0 hp2 hne hpat
-        simp [hpat, this]
+      · by_cases hpo : isPushOnly ep.see.script = true
+        · have := hpred htce hpc0 hp2 hne hpat hpo
+          simp [hpat, hpo, this]
+        · simp [hpat, hpo]
       · simp [hpat]
     · rw [hsq, hseq]; simp [hlen]; omega
     · rw [hscr, hpc]; rfl
     · rw [hdn, hnd]; intro h; cases h
   | finish htce hpc0 hp2 hsu0 hv =>
     simp only [view, Prod.mk.injEq] at hv
-    obtain ⟨hscr, hfl, hpc, htce', hisp, hps, hsu, hdn, hsq, _, _⟩ := hv
+    obtain ⟨hscr, hfl, hpc, htce', hisp, hps, hsu, hdn, hsq, _, _, hsx, hsp⟩ := hv
     refine ⟨pre, k, ?_, ?_, ?_, ?_, ?_⟩
-    · rw [hL, hscr, hfl, htce', hisp, hps, hsu, htce, hp2, hsu0]
+    · rw [hL, hscr, hfl, htce', hisp, hps, hsu, hsx, hsp, htce, hp2, hsu0]
     · rw [hsq, hseq]
     · rw [hscr, hpc]; exact hadv
     · rw [htce']; intro h; simp at h
@@ -138,7 +154,7 @@ theorem planOf_split {k : Nat} {s pc : Bytes} (h : advanceOps k s = some pc) :
 /-- from the structural invariant: the line with the number `curr_op_seq` is the operation the next
     step performs (no line when nothing is pending) -/
 theorem inv_marker (r : Bytes) (L : List Spec.PlanLine) (e : IEnv) (hinv : Inv r L e)
-    (hdec : e.tce = none → e.pc ≠ [] → Spec.decodeOne e.pc = none → Spec.tailFuture r e = []) :
+    (hdec : e.tce = none → e.pc ≠ [] → Spec.decodeOne e.pc = none → tailOf r e = []) :
     0 ≤ e.currOpSeq ∧ L[e.currOpSeq.toNat]? = Spec.pending e := by
   obtain ⟨pre, k, hL, hseq, hadv, htk, hdone⟩ := hinv
   refine ⟨by omega, ?_⟩
@@ -146,11 +162,11 @@ theorem inv_marker (r : Bytes) (L : List Spec.PlanLine) (e : IEnv) (hinv : Inv r
   rw [hidx, hL, List.getElem?_append_right (by omega)]
   have hsub : pre.length + k - pre.length = k := by omega
   rw [hsub]
-  unfold Spec.pending Spec.sessionPlan
+  unfold Spec.pending
   by_cases hd : e.done = true
   · obtain ⟨h1, h2, h3, h4⟩ := hdone hd
     have hlen : (Spec.planOf e.see.script).length = k := planOf_length_of_end (by rw [← h2]; exact hadv)
-    simp only [hd, if_true, h1, Spec.commitFuture, Spec.tailFuture, h3, h4, List.nil_append, List.append_nil]
+    simp only [hd, if_true, h1, Spec.commitFuture, tailOf, doomed, Spec.tailFuture, h3, h4, List.nil_append, List.append_nil]
     simp [hlen]
   · simp only [hd, Bool.false_eq_true, if_false]
     cases htce : e.tce with
@@ -159,8 +175,8 @@ theorem inv_marker (r : Bytes) (L : List Spec.PlanLine) (e : IEnv) (hinv : Inv r
       subst hk0
       simp only [Spec.commitFuture]
       by_cases hlt : t.i < t.pathLen
-      · rw [commitmentPlan_lt _ _ _ hlt]; simp [hlt]
-      · rw [commitmentPlan_ge _ _ _ hlt]; simp [hlt]
+      · rw [commitmentPlan_lt _ _ _ _ hlt]; simp [hlt]
+      · rw [commitmentPlan_ge _ _ _ _ hlt]; simp [hlt]
     | none =>
       simp only [Spec.commitFuture, List.nil_append]
       obtain ⟨pre2, hp1, hp2⟩ := planOf_split hadv
@@ -170,11 +186,13 @@ theorem inv_marker (r : Bytes) (L : List Spec.PlanLine) (e : IEnv) (hinv : Inv r
       cases hpc : e.pc with
       | nil =>
         simp only [List.length_nil, Spec.planFrom, List.nil_append, List.isEmpty_nil, Bool.not_true, Bool.false_eq_true, if_false]
-        unfold Spec.tailFuture
+        unfold tailOf doomed Spec.tailFuture
         by_cases hp2sh : e.isP2sh = true
-        · simp [hp2sh]
+        · by_cases hdm : (e.sigscriptExecuted && !e.sigscriptPushonly) = true
+          · simp [hp2sh, hdm]
+          · simp [hp2sh, hdm]
         · have : e.isP2sh = false := by simpa using hp2sh
-          simp only [this, Bool.false_eq_true, if_false, List.nil_append]
+          simp only [this, Bool.false_eq_true, if_false, List.nil_append, Bool.false_and]
           by_cases hsu : e.successor.isEmpty = true
           · simp [hsu]
           · simp [hsu]
@@ -270,25 +288,29 @@ def J (s0 : Bytes) (e : IEnv) : Prop :=
   (e.successor ≠ [] → Decodable e.see.script ∧ e.isP2sh = false) ∧
   (e.successor = [] ∨ e.successor = s0)
 
+/-- while the scriptPubKey is pending the current script is the scriptSig the session started with, and
+    there is no commitment phase -/
+def K (sc0 : Bytes) (e : IEnv) : Prop := e.successor ≠ [] → e.see.script = sc0 ∧ e.tce = none
+
 theorem j_step (cx : Ctx) (tc : TapCtx) (s0 : Bytes) (ep e : IEnv) (hj : J s0 ep) (hs : stepSession cx tc ep = .ok e) : J s0 e := by
   obtain ⟨hj1, hj2, hj3⟩ := hj
   unfold J
   cases stepSession_cases cx tc ep e hs with
-  | merkle t t' htce hlt hc hm hi hv =>
+  | merkle t t' htce hlt hc hp hm hi hv =>
     simp only [view, Prod.mk.injEq] at hv
-    obtain ⟨hscr, hfl, hpc, htce', hisp, hps, hsu, hdn, hsq, _, _⟩ := hv
+    obtain ⟨hscr, hfl, hpc, htce', hisp, hps, hsu, hdn, hsq, _, _, hsx, hsp⟩ := hv
     rw [hscr, hfl, hisp, hsu]; exact ⟨hj1, hj2, hj3⟩
   | tweak t htce hlt hv =>
     simp only [view, Prod.mk.injEq] at hv
-    obtain ⟨hscr, hfl, hpc, htce', hisp, hps, hsu, hdn, hsq, _, _⟩ := hv
+    obtain ⟨hscr, hfl, hpc, htce', hisp, hps, hsu, hdn, hsq, _, _, hsx, hsp⟩ := hv
     rw [hscr, hfl, hisp, hsu]; exact ⟨hj1, hj2, hj3⟩
   | op g see' htce hne hg hst hv =>
     simp only [view, Prod.mk.injEq] at hv
-    obtain ⟨hscr, hfl, hpc, htce', hisp, hps, hsu, hdn, hsq, _, _⟩ := hv
+    obtain ⟨hscr, hfl, hpc, htce', hisp, hps, hsu, hdn, hsq, _, _, hsx, hsp⟩ := hv
     rw [hscr, hfl, hisp, hsu]; exact ⟨hj1, hj2, hj3⟩
-  | p2sh redeem htce hpc0 hp2 hr hv =>
+  | p2sh redeem htce hpc0 hp2 hr hpo hv =>
     simp only [view, Prod.mk.injEq] at hv
-    obtain ⟨hscr, hfl, hpc, htce', hisp, hps, hsu, hdn, hsq, _, _⟩ := hv
+    obtain ⟨hscr, hfl, hpc, htce', hisp, hps, hsu, hdn, hsq, _, _, hsx, hsp⟩ := hv
     rw [hisp, hsu]
     refine ⟨fun h => (by cases h), ?_, hj3⟩
     intro hne
@@ -296,12 +318,12 @@ theorem j_step (cx : Ctx) (tc : TapCtx) (s0 : Bytes) (ep e : IEnv) (hj : J s0 ep
     rw [hp2] at this; cases this
   | succ htce hpc0 hp2 hne hv =>
     simp only [view, Prod.mk.injEq] at hv
-    obtain ⟨hscr, hfl, hpc, htce', hisp, hps, hsu, hdn, hsq, _, _⟩ := hv
+    obtain ⟨hscr, hfl, hpc, htce', hisp, hps, hsu, hdn, hsq, _, _, hsx, hsp⟩ := hv
     rw [hscr, hfl, hisp, hsu]
     exact ⟨fun h => h, fun h => absurd rfl h, Or.inl rfl⟩
   | finish htce hpc0 hp2 hsu0 hv =>
     simp only [view, Prod.mk.injEq] at hv
-    obtain ⟨hscr, hfl, hpc, htce', hisp, hps, hsu, hdn, hsq, _, _⟩ := hv
+    obtain ⟨hscr, hfl, hpc, htce', hisp, hps, hsu, hdn, hsq, _, _, hsx, hsp⟩ := hv
     rw [hisp, hsu]
     exact ⟨fun h => (by cases h), fun h => absurd rfl h, Or.inl rfl⟩
 
@@ -309,14 +331,14 @@ theorem j_step (cx : Ctx) (tc : TapCtx) (s0 : Bytes) (ep e : IEnv) (hj : J s0 ep
 structure Fresh (e0 : IEnv) : Prop where
   pcStart : e0.pc = e0.see.script
   seq0 : e0.currOpSeq = 0
-  /-- a session that starts in the ended state has nothing left to do
-      (not guaranteed by `setup_environment` for a taproot script path with an EMPTY script: it is
-      born `done` with the commitment unchecked — excluded) -/
+  /-- a session that starts in the ended state has nothing left to do -/
   done0 : e0.done = true → e0.tce = none ∧ e0.pc = [] ∧ e0.isP2sh = false ∧ e0.successor = []
   p2sh0 : e0.isP2sh = true → p2shPattern e0.see.flags e0.see.script = true
-  /-- a scriptSig that is followed by a scriptPubKey decodes completely, and the session does not at
-      the same time treat the scriptSig itself as a P2SH scriptPubKey -/
-  succ0 : e0.successor ≠ [] → Decodable e0.see.script ∧ e0.isP2sh = false
+  sig0 : e0.sigscriptExecuted = false
+  /-- a scriptSig (a script that is followed by a scriptPubKey) decodes completely (`configure_tx_txin`
+      refuses others), starts on an empty stack with no open conditional, and the session does not at the
+      same time treat the scriptSig itself as a P2SH scriptPubKey -/
+  succ0 : e0.successor ≠ [] → Decodable e0.see.script ∧ e0.isP2sh = false ∧ e0.see.stack = [] ∧ e0.see.cond.allTrue = true ∧ e0.tce = none
 
 theorem fresh_inv (e0 : IEnv) (h : Fresh e0) : e0.Inv ∧ atStart e0 = true :=
   ⟨⟨by rw [h.pcStart]; exact Nat.le_refl _, fun _ => by simp [atStart, h.pcStart]⟩, by simp [atStart, h.pcStart]⟩
@@ -348,14 +370,14 @@ theorem advance_induction (cx : Ctx) (tc : TapCtx) (e0 : IEnv) (P : IEnv → Pro
 /-- the side invariant holds after any number of successful steps of a fresh session -/
 theorem j_advance (cx : Ctx) (tc : TapCtx) (e0 : IEnv) (hf : Fresh e0) :
     ∀ k e, C04.advance cx tc e0 k = some e → J e0.successor e :=
-  advance_induction cx tc e0 _ ⟨hf.p2sh0, hf.succ0, Or.inr rfl⟩ (fun _ ep e _ _ hp hs => j_step cx tc _ ep e hp hs)
+  advance_induction cx tc e0 _ ⟨hf.p2sh0, fun h => ⟨(hf.succ0 h).1, (hf.succ0 h).2.1⟩, Or.inr rfl⟩ (fun _ ep e _ _ hp hs => j_step cx tc _ ep e hp hs)
 
 /-- the structural invariant holds after any number of successful steps of a fresh session -/
 theorem inv_advance (cx : Ctx) (tc : TapCtx) (r : Bytes) (e0 : IEnv) (hf : Fresh e0)
     (hpred : ∀ j e, C04.advance cx tc e0 j = some e → PredOk r e) :
     ∀ k e, C04.advance cx tc e0 k = some e → Inv r (Spec.idealListing r e0) e :=
   advance_induction cx tc e0 _
-    ⟨[], 0, by simp [Spec.idealListing], by simp [hf.seq0], by simp [advanceOps, hf.pcStart], fun _ => rfl, hf.done0⟩
+    ⟨[], 0, by simp [Spec.idealListing, Spec.sessionPlan, tailOf, doomed, hf.sig0], by simp [hf.seq0], by simp [advanceOps, hf.pcStart], fun _ => rfl, hf.done0⟩
     (fun j ep e hk hd hp hs => inv_step cx tc r _ ep e hp hd (hpred j ep hk) hs)
 
 /-- the marker property in the form the statement of C12 gives it: the line whose number is the marker
@@ -377,7 +399,7 @@ theorem marker_of_inv (r s0 : Bytes) (L : List Spec.PlanLine) (e : IEnv) (hi : I
     intro hd
     have := hd k e.pc hadv hne
     rw [hgo] at this; cases this
-  unfold Spec.tailFuture
+  unfold tailOf doomed Spec.tailFuture
   have h1 : e.isP2sh = false := by
     cases hp : e.isP2sh with
     | false => rfl
@@ -400,100 +422,103 @@ theorem execHist_append (cx : Ctx) (tc : TapCtx) (a b : List C04.Cmd) (s : IEnv 
     | some p => obtain ⟨e', d⟩ := p; exact ih _
 
 -- ---------------------------------------------------------------------------------------------
--- the listing: texts that are not cut, commitment lines
-
-theorem opLines_short (sect : Sect) (s : Bytes) (h : ∀ p ∈ decodeFrom s, p.2.data.length ≤ 514) :
-    ∀ l ∈ opLines sect s, l.text.toList.length ≤ 1029 := by
-  intro l hl
-  simp only [opLines, List.mem_map] at hl
-  obtain ⟨p, hp, rfl⟩ := hl
-  simp only [opText]
-  split
-  · rw [toHex_length]; have := h p hp; omega
-  · have := opNameOf_short p.2.opcode; omega
-
-theorem description_kind (t : Tce) : ∀ l ∈ t.description, l.kind = .desc := by
-  intro l hl
-  simp only [Tce.description, List.mem_append, List.mem_map, List.mem_cons, List.not_mem_nil, or_false] at hl
-  rcases hl with ⟨i, _, rfl⟩ | rfl | rfl <;> rfl
+-- the listing: commitment lines
 
 theorem branchLine_plan (t : Tce) (i : Nat) : (branchLine t i).plan = Spec.merkleStep t.control i := rfl
 
-theorem checkLine_plan : checkLine.plan = Spec.tweakCheck := rfl
-
-theorem insert_getElem {α} (L : List α) (m : Nat) (x : α) (hm : m ≤ L.length) :
-    (∀ i, i < m → (L.take m ++ x :: L.drop m)[i]? = L[i]?) ∧
-    (L.take m ++ x :: L.drop m)[m]? = some x ∧
-    (∀ i, m ≤ i → (L.take m ++ x :: L.drop m)[i + 1]? = L[i]?) := by
-  have hlen : (L.take m).length = m := by simp [hm]
-  refine ⟨?_, ?_, ?_⟩
-  · intro i hi
-    rw [List.getElem?_append_left (by omega)]
-    simp [List.getElem?_take, hi]
-  · rw [List.getElem?_append_right (by omega)]; simp [hlen]
-  · intro i hi
-    rw [List.getElem?_append_right (by omega), hlen]
-    have : i + 1 - m = (i - m) + 1 := by omega
-    rw [this]; simp
-    congr 1; omega
+theorem checkLine_plan (t : Tce) : (checkLine t).plan = Spec.tweakCheck t.p := rfl
 
 -- ---------------------------------------------------------------------------------------------
--- data-push-only scriptSigs
+-- push-only scriptSigs
 
-/-- every instruction of the script is a data push (`OP_0`, direct pushes, `OP_PUSHDATA1/2/4`) -/
-def DataPushOnly (s : Bytes) : Prop := ∀ p ∈ decodeFrom s, p.2.opcode ≤ Op.OP_PUSHDATA4
+/-- every instruction of the script has an opcode up to `OP_16` (`IsPushOnly`, see `isPushOnly_ops`) -/
+def PushOnly (s : Bytes) : Prop := ∀ p ∈ decodeFrom s, p.2.opcode ≤ Op.OP_16
 
-/-- data of the last of the first `k` instructions -/
-def topAfter (s : Bytes) (k : Nat) : Bytes := ((((decodeFrom s).take k).getLast?).map (·.2.data)).getD []
+/-- what the last of the first `k` instructions leaves on top of the stack -/
+def topAfter (s : Bytes) (k : Nat) : Bytes := ((((decodeFrom s).take k).getLast?).map (fun p => payloadOf p.2)).getD []
 
-/-- while the scriptSig of such a spend runs, the top of the stack is the data of the last instruction executed -/
-def Q (s0 : Bytes) (e : IEnv) : Prop :=
-  e.tce = none ∧
-  (e.successor ≠ [] → e.see.script = s0 ∧ e.see.cond.allTrue = true ∧
-    ∃ k, advanceOps k e.see.script = some e.pc ∧ e.see.stack.getLast?.getD [] = topAfter e.see.script k)
-
-theorem q_step (cx : Ctx) (tc : TapCtx) (s0 s1 : Bytes) (hdp : DataPushOnly s0) (ep e : IEnv) (hq : Q s0 ep) (hj : J s1 ep)
-    (hs : stepSession cx tc ep = .ok e) : Q s0 e := by
-  obtain ⟨htce0, hq2⟩ := hq
-  unfold Q
+theorem k_step (cx : Ctx) (tc : TapCtx) (sc0 s0 : Bytes) (ep e : IEnv) (hk : K sc0 ep) (hj : J s0 ep)
+    (hs : stepSession cx tc ep = .ok e) : K sc0 e := by
+  unfold K
   cases stepSession_cases cx tc ep e hs with
-  | merkle t t' htce hlt hc hm hi hv => rw [htce0] at htce; cases htce
-  | tweak t htce hlt hv => rw [htce0] at htce; cases htce
+  | merkle t t' htce hlt hc hp hm hi hv =>
+    simp only [view, Prod.mk.injEq] at hv
+    obtain ⟨hscr, hfl, hpc, htce', hisp, hps, hsu, hdn, hsq, _, _, hsx, hsp⟩ := hv
+    rw [hsu]; intro hne; have := (hk hne).2; rw [htce] at this; cases this
+  | tweak t htce hlt hv =>
+    simp only [view, Prod.mk.injEq] at hv
+    obtain ⟨hscr, hfl, hpc, htce', hisp, hps, hsu, hdn, hsq, _, _, hsx, hsp⟩ := hv
+    rw [hsu]; intro hne; have := (hk hne).2; rw [htce] at this; cases this
   | op g see' htce hne hg hst hv =>
     simp only [view, Prod.mk.injEq] at hv
-    obtain ⟨hscr, hfl, hpc, htce', hisp, hps, hsu, hdn, hsq, hstk, hcnd⟩ := hv
-    refine ⟨htce', ?_⟩
+    obtain ⟨hscr, hfl, hpc, htce', hisp, hps, hsu, hdn, hsq, _, _, hsx, hsp⟩ := hv
+    rw [hsu, hscr, htce']; intro hne'; exact ⟨(hk hne').1, rfl⟩
+  | p2sh redeem htce hpc0 hp2 hr hpo hv =>
+    simp only [view, Prod.mk.injEq] at hv
+    obtain ⟨hscr, hfl, hpc, htce', hisp, hps, hsu, hdn, hsq, _, _, hsx, hsp⟩ := hv
+    rw [hsu]; intro hne'
+    have := (hj.2.1 hne').2
+    rw [hp2] at this; cases this
+  | succ htce hpc0 hp2 hne hv =>
+    simp only [view, Prod.mk.injEq] at hv
+    obtain ⟨hscr, hfl, hpc, htce', hisp, hps, hsu, hdn, hsq, _, _, hsx, hsp⟩ := hv
+    rw [hsu]; intro h; exact absurd rfl h
+  | finish htce hpc0 hp2 hsu0 hv =>
+    simp only [view, Prod.mk.injEq] at hv
+    obtain ⟨hscr, hfl, hpc, htce', hisp, hps, hsu, hdn, hsq, _, _, hsx, hsp⟩ := hv
+    rw [hsu]; intro h; exact absurd rfl h
+
+/-- while a push-only scriptSig runs, the top of the stack is what the last instruction executed left there -/
+def Q (e : IEnv) : Prop :=
+  e.successor ≠ [] → e.see.cond.allTrue = true ∧
+    ∃ k, advanceOps k e.see.script = some e.pc ∧ e.see.stack.getLast?.getD [] = topAfter e.see.script k
+
+theorem q_step (cx : Ctx) (tc : TapCtx) (sc0 s0 : Bytes) (hdp : PushOnly sc0) (ep e : IEnv) (hq : Q ep) (hk : K sc0 ep) (hj : J s0 ep)
+    (hs : stepSession cx tc ep = .ok e) : Q e := by
+  unfold Q
+  cases stepSession_cases cx tc ep e hs with
+  | merkle t t' htce hlt hc hp hm hi hv =>
+    simp only [view, Prod.mk.injEq] at hv
+    obtain ⟨hscr, hfl, hpc, htce', hisp, hps, hsu, hdn, hsq, hstk, hcnd, hsx, hsp⟩ := hv
+    rw [hsu]; intro hne; have := (hk hne).2; rw [htce] at this; cases this
+  | tweak t htce hlt hv =>
+    simp only [view, Prod.mk.injEq] at hv
+    obtain ⟨hscr, hfl, hpc, htce', hisp, hps, hsu, hdn, hsq, hstk, hcnd, hsx, hsp⟩ := hv
+    rw [hsu]; intro hne; have := (hk hne).2; rw [htce] at this; cases this
+  | op g see' htce hne hg hst hv =>
+    simp only [view, Prod.mk.injEq] at hv
+    obtain ⟨hscr, hfl, hpc, htce', hisp, hps, hsu, hdn, hsq, hstk, hcnd, hsx, hsp⟩ := hv
     rw [hsu, hscr, hpc, hstk, hcnd]
     intro hne'
-    obtain ⟨hs0, hall, k, hadv, htop⟩ := hq2 hne'
+    obtain ⟨hall, k, hadv, htop⟩ := hq hne'
+    have hs0 := (hk hne').1
     obtain ⟨pre, hdec, hlen⟩ := decodeFrom_advance k _ _ hadv
     have hdec' : decodeFrom ep.see.script = pre ++ (ep.pc.length, g) :: decodeFrom g.rest := by
       rw [hdec, decodeFrom_some hg]
     have hmem : (ep.pc.length, g) ∈ decodeFrom ep.see.script := by rw [hdec']; simp
     have hop := hdp _ (by rw [← hs0]; exact hmem)
-    obtain ⟨hst1, hst2⟩ := step_push cx ep.see see' ep.pc g.rest g hst hg hall hop
-    refine ⟨hs0, by rw [hst2]; exact hall, k + 1, advanceOps_succ hadv hg, ?_⟩
+    obtain ⟨hst1, hst2⟩ := step_pushonly cx ep.see see' ep.pc g.rest g hst hg hall hop
+    refine ⟨by rw [hst2]; exact hall, k + 1, advanceOps_succ hadv hg, ?_⟩
     simp only [hst1, topAfter]
     rw [hdec']
     have : (pre ++ (ep.pc.length, g) :: decodeFrom g.rest).take (k + 1) = pre ++ [(ep.pc.length, g)] := by
       rw [List.take_append, List.take_of_length_le (by omega)]
       simp [hlen]
     rw [this]; simp
-  | p2sh redeem htce hpc0 hp2 hr hv =>
+  | p2sh redeem htce hpc0 hp2 hr hpo hv =>
     simp only [view, Prod.mk.injEq] at hv
-    obtain ⟨hscr, hfl, hpc, htce', hisp, hps, hsu, hdn, hsq, hstk, hcnd⟩ := hv
-    refine ⟨htce', ?_⟩
+    obtain ⟨hscr, hfl, hpc, htce', hisp, hps, hsu, hdn, hsq, hstk, hcnd, hsx, hsp⟩ := hv
     rw [hsu]
     intro hne
     have := (hj.2.1 hne).2
     rw [hp2] at this; cases this
   | succ htce hpc0 hp2 hne hv =>
     simp only [view, Prod.mk.injEq] at hv
-    obtain ⟨hscr, hfl, hpc, htce', hisp, hps, hsu, hdn, hsq, hstk, hcnd⟩ := hv
-    exact ⟨htce', fun h => absurd hsu h⟩
+    obtain ⟨hscr, hfl, hpc, htce', hisp, hps, hsu, hdn, hsq, hstk, hcnd, hsx, hsp⟩ := hv
+    rw [hsu]; intro h; exact absurd rfl h
   | finish htce hpc0 hp2 hsu0 hv =>
     simp only [view, Prod.mk.injEq] at hv
-    obtain ⟨hscr, hfl, hpc, htce', hisp, hps, hsu, hdn, hsq, hstk, hcnd⟩ := hv
-    exact ⟨htce', fun h => absurd hsu h⟩
+    obtain ⟨hscr, hfl, hpc, htce', hisp, hps, hsu, hdn, hsq, hstk, hcnd, hsx, hsp⟩ := hv
+    rw [hsu]; intro h; exact absurd rfl h
 
 end Btcdeb.Proofs.C12
